@@ -148,6 +148,12 @@ func c08Gen(tier string, seed int64) []fw.Case {
 	// declared lengths
 	for _, role := range bothRoles {
 		for _, decl := range []uint64{1 << 20, 1 << 27, 1 << 31, 1 << 40, 1<<62 + 5, 1<<63 - 1} {
+			// the frame arrives while the local side is in its close handshake (Close, or the close CloseRead
+			// starts when a data message arrives), which drops incoming data while it waits for the peer's Close
+			for _, rdk := range []string{"Close", "CloseRead"} {
+				add(c08Desc{Kind: "declared", Role: role, Declared: decl, Sent: 10 + int(decl%7), Then: "eof", Reader: readMode{rdk, 0}, Limit: -2, Seed: rng.U64()},
+					fmt.Sprintf("declared/%s/2^%d/during-%s", role, bitLen(decl), rdk))
+			}
 			for _, then := range []string{"eof", "stall"} {
 				for ri, rd := range []readMode{{"Read", 0}, {"Reader", 4096}} {
 					for _, lim := range []int64{-1, -2} {
@@ -483,6 +489,9 @@ func c08Declared(r *fw.R, d c08Desc) {
 	}
 	f := wire.Frame{Fin: true, Op: wire.OpBinary, LenForm: 8, DeclLen: d.Declared, Payload: bytes.Repeat([]byte{0x5a}, d.Sent)}
 	stream := peer.Mask(f).Bytes()
+	if d.Reader.Kind == "CloseRead" {
+		stream = append(peer.Mask(wire.Data(wire.OpText, true, []byte("data under CloseRead"))).Bytes(), stream...)
+	}
 	what := fmt.Sprintf("%s frame declaring %d payload bytes, %d sent, then %s, limit=%d reader=%s", d.Role, d.Declared, d.Sent, d.Then, eff, d.Reader)
 	r.Key("declared/%s/2^%d/%s/%s/limit=%s", d.Role, bitLen(d.Declared), d.Then, d.Reader.Kind, limClass(d.Limit))
 	r.Count("declared_length_cases", 1)
@@ -500,6 +509,24 @@ func c08Declared(r *fw.R, d c08Desc) {
 	}
 	var delivered int64
 	var rerr error
+	if d.Reader.Kind == "Close" || d.Reader.Kind == "CloseRead" {
+		// the close handshake meets the frame; nothing is delivered to anyone
+		if d.Reader.Kind == "Close" {
+			rerr = c.Close(websocket.StatusNormalClosure, "")
+		} else {
+			// a complete small data message first makes CloseRead start its policy-violation close
+			cr := c.CloseRead(ctx)
+			<-cr.Done()
+			rerr = cr.Err()
+		}
+		alloc := int64(totalAlloc() - a0)
+		r.Max("declared_alloc_bytes", alloc)
+		r.Count("declared_frames_met_by_the_close_handshake", 1)
+		if bound := int64(3 << 20); alloc > bound {
+			r.Violate("C08/memory-grows-with-declared-length/close-handshake", fmt.Sprintf("%s: %d bytes allocated while only %d payload bytes ever arrived (bound %d); the handshake ended with %v", what, alloc, d.Sent, bound, rerr), "")
+		}
+		return
+	}
 	if d.Reader.Kind == "Read" {
 		var b []byte
 		_, b, rerr = c.Read(ctx)
